@@ -27,28 +27,35 @@ pub struct Item {
 pub fn collect<CS: Suite>(env: &Env, w: &World<CS>, maxn: usize, label: &str) -> Vec<Item>
 where CL03<CS>: Scheme<PubKey = CL03PublicKey, PrivKey = CL03SecretKey>, CS::HashAlg: sha2::Digest {
     let seed = env.ctx.seed;
-    let mut specs: Vec<(&'static str, usize, Vec<usize>, bool)> = Vec::new();
+    let mut specs: Vec<(&'static str, usize, Vec<usize>, bool, &'static str)> = Vec::new();
     for n in 1..=maxn { for u in subsets(n) {
-        if !u.is_empty() { specs.push(("issuance", n, u.clone(), false)); if n == 2 && u == vec![1] { specs.push(("issuance", n, u.clone(), true)); } }
-        specs.push(("signature-proof", n, u.clone(), false));
+        if !u.is_empty() { specs.push(("issuance", n, u.clone(), false, "")); if n == 2 && u == vec![1] { specs.push(("issuance", n, u.clone(), true, "")); } }
+        specs.push(("signature-proof", n, u.clone(), false, ""));
+        // small hidden attributes (0 and 1): blinding must not scale with the secret
+        if n == 2 && !u.is_empty() { for var in ["zero", "one"] { specs.push(("issuance", n, u.clone(), false, var)); specs.push(("signature-proof", n, u.clone(), false, var)); } }
     } }
+    // hidden-position lists that are NOT in ascending order (the API takes any list): whatever the prover does with them,
+    // the proof it hands out must not leak more than for the sorted list
+    for n in 2..=maxn { for u in subsets(n) { if u.len() >= 2 { let mut r = u.clone(); r.reverse(); specs.push(("signature-proof", n, r.clone(), false, "")); specs.push(("issuance", n, r, false, "")); } } }
+    if maxn >= 3 { specs.push(("signature-proof", 3, vec![2, 0], false, "")); specs.push(("signature-proof", 3, vec![1, 2, 0], false, "")); specs.push(("issuance", 3, vec![2, 0], false, "")); }
     let out = std::sync::Mutex::new(Vec::new());
-    par_for(&specs, |_, (kind, n, u, trusted)| {
-        let m = distinct_attrs(seed, label, *n);
-        let id = format!("{}/{}/n{}/hidden{:?}{}", CS::NAME, kind, n, u, if *trusted { "/trusted" } else { "" });
+    par_for(&specs, |_, (kind, n, u, trusted, var)| {
+        let mut m = distinct_attrs(seed, label, *n);
+        match *var { "zero" => m[u[0]] = Integer::from(0), "one" => m[*u.last().unwrap()] = Integer::from(1), _ => {} }
+        let id = format!("{}/{}/n{}/hidden{:?}{}{}", CS::NAME, kind, n, u, if *trusted { "/trusted" } else { "" }, if var.is_empty() { String::new() } else { format!("/{}", var) });
         if *kind == "issuance" {
             match holder::<CS>(w, *n, &m, u, *trusted) {
                 O::Ok(f) => { let mut secrets: Vec<(String, Integer)> = u.iter().map(|&i| (format!("hidden m_{}", i), m[i].clone())).collect(); secrets.push(("commitment randomness r".into(), f.c.randomness().clone()));
                     let mut pe = vec![("C".to_string(), f.c.value().clone())]; if let Some(ct) = &f.c_trusted { pe.push(("C_trusted".into(), ct.value().clone())); secrets.push(("trusted commitment randomness".into(), ct.randomness().clone())); }
                     out.lock().unwrap().push(Item { id, kind, n: *n, hidden: u.clone(), proof: to_json(&f.zkpok), m: m.clone(), secrets, public_extra: pe }); }
-                o => env.machinery(&format!("holder side failed for {}: {}", id, o.describe())),
+                o => { if u.windows(2).all(|w| w[0] < w[1]) { env.machinery(&format!("holder side failed for {}: {}", id, o.describe())); } else { env.ctx.note(&format!("{}: prover refuses the unordered hidden list ({})", id, o.kind())); } }
             }
         } else {
             match honest::<CS>(w, *n, &m, u) {
                 O::Ok((sig, p)) => { let sj = to_json(&sig); let mut secrets: Vec<(String, Integer)> = u.iter().map(|&i| (format!("hidden m_{}", i), m[i].clone())).collect();
                     for k in ["e", "s", "v"] { secrets.push((format!("signature {}", k), leaf_int(&sj["CL03"][k]).unwrap())); }
                     out.lock().unwrap().push(Item { id, kind, n: *n, hidden: u.clone(), proof: to_json(&p), m: m.clone(), secrets, public_extra: vec![] }); }
-                o => env.machinery(&format!("proof_gen failed for {}: {}", id, o.describe())),
+                o => { if u.windows(2).all(|w| w[0] < w[1]) { env.machinery(&format!("proof_gen failed for {}: {}", id, o.describe())); } else { env.ctx.note(&format!("{}: prover refuses the unordered hidden list ({})", id, o.kind())); } }
             }
         }
     });
@@ -62,7 +69,7 @@ where CL03<CS>: Scheme<PubKey = CL03PublicKey, PrivKey = CL03SecretKey>, CS::Has
     let maxn = if env.thorough() { 3 } else { 2 };
     let w: World<CS> = World::generate(maxn);
     let items = collect::<CS>(env, &w, maxn, "c17");
-    env.ctx.set_rule("every honest issuance proof (all non-empty hidden subsets, + one with trusted party) and signature proof (all subsets), n <= 2 (thorough 3). In the JSON view: (i) every object shaped {value, randomness} and (ii) every ordered pair of integer leaves (quick: sibling pairs under one parent; thorough: all ordered pairs) is tested as an opening (V, R): for every public base pair (g, h, N) in {(a_i, b, N)} u {(g_i, h_c, N)} u {(g_i', h', N') of the trusted key} and every secret x the prover holds (hidden m_i, e, s, v, r): V != g^x * h^R; V * g^(-R) != v; the full-vector opening V = prod g_i^{m_i} * h^R with revealed attributes known; and the dictionary attack with candidates {true value, true value + 1}: the test must not single out the true candidate. State = (proof, leaf pair); non-trivial = at least one modular recomputation against a real serialized proof.");
+    env.ctx.set_rule("every honest issuance proof (all non-empty hidden subsets, + one with trusted party) and signature proof (all subsets), n <= 2 (thorough 3). In the JSON view: (i) every object shaped {value, randomness} and (ii) every ordered pair of integer leaves (quick: sibling pairs under one parent; thorough: all ordered pairs) is tested as an opening (V, R): for every public base pair (g, h, N) in {(a_i, b, N)} u {(g_i, h_c, N)} u {(g_i', h', N') of the trusted key} and every secret x the prover holds (hidden m_i, e, s, v, r): V != g^x * h^R; V * g^(-R) != v; the full-vector opening V = prod g_i^{m_i} * h^R with revealed attributes known; no leaf equals x, c*x or (1+c)*x for a hidden attribute x and a challenge c the recipient has or can recompute; and the dictionary attack with candidates {true value, true value + 1}: the test must not single out the true candidate; sibling responses must not differ by challenge * (m_i - m_j). Hidden-position lists are also given in non-ascending order. State = (proof, leaf pair); non-trivial = at least one modular recomputation against a real serialized proof.");
     par_for(&items, |_, it| {
         if !env.want(&it.id) || env.ctx.out_of_time() { return; }
         let n = it.n;
@@ -111,6 +118,30 @@ where CL03<CS>: Scheme<PubKey = CL03PublicKey, PrivKey = CL03SecretKey>, CS::Has
             env.ctx.class(if shaped { "value/randomness object" } else { "leaf pair" });
             env.ctx.trace();
         }
+        // two hidden attributes blinded by the same value: (s_i - s_j) = c * (m_i - m_j) exactly, for a challenge c carried in the proof
+        // challenges: carried in the proof or recomputable by the recipient from public data
+        let chal: Vec<Integer> = crate::c19::challenges::<CS>(&w, it).into_iter().map(|c| c.1).filter(|c| *c > 0).collect();
+        // a leaf that is an exact multiple x, c*x or (1+c)*x of a hidden attribute confirms a guess of x with one multiplication
+        for a in &leaves {
+            let s = val(a); if s <= 0 { continue; }
+            for &hi in &it.hidden { let x = &it.m[hi]; if *x < pow2(64) { continue; } // 0 and 1 make the relation trivial
+                env.ctx.step();
+                let mut how = None;
+                if s == *x { how = Some("x".to_string()); }
+                for c in &chal { if s == c.clone() * x { how = Some("challenge * x".into()); } else if s == (c.clone() + 1u32) * x { how = Some("(1 + challenge) * x".into()); } }
+                if let Some(hw) = how { env.ctx.violation(&format!("C17:leaf-confirms-guess:/{}", path_class(a)), &format!("/{} = {} for the hidden attribute x = m_{}: a guessed value is confirmed from the proof alone", a.join("/"), hw, hi), env.case(&it.id, json!({"base": det0, "leaf": a.join("/"), "how": hw}))); }
+            }
+        }
+        for a in &leaves { for b in &leaves {
+            if a >= b || a.len() != b.len() || a[..a.len() - 1] != b[..b.len() - 1] || !a.last().unwrap().chars().all(|c| c.is_ascii_digit()) { continue; }
+            let diff = val(a) - val(b);
+            for (i, &hi) in it.hidden.iter().enumerate() { for &hj in it.hidden.iter().skip(i + 1) {
+                let dm = it.m[hi].clone() - &it.m[hj];
+                for c in &chal { env.ctx.step(); if *c != 0 && (diff.clone() == c.clone() * &dm || diff.clone() == -(c.clone() * &dm)) {
+                    env.ctx.violation(&format!("C17:difference-of-hidden-attributes:/{}", path_class(a)), &format!("/{} - /{} = challenge * (m_{} - m_{}): the two responses share their blinding, the difference of two hidden attributes can be confirmed from the proof", a.join("/"), b.join("/"), hi, hj), env.case(&it.id, json!({"base": det0, "leaves": [a.join("/"), b.join("/")]})));
+                } }
+            } }
+        } }
         // the mere presence of a field named `randomness` next to a commitment value is recorded (not a verdict by itself)
         env.ctx.add_extra("randomness_leaves_seen", leaves.iter().filter(|p| p.last().map(|x| x == "randomness").unwrap_or(false)).count() as u64);
         if it.n == 2 && it.hidden == vec![1] { env.ctx.sample(json!({"proof": it.id, "leaves": leaves.len(), "pairs_tested": pairs.len(), "base_pairs": bases.len()})); }
